@@ -6,16 +6,13 @@ From PV Require Import Extract.Model Extract.Spec Extract.ProofsCapture Extract.
 Import ListNotations.
 Open Scope Z_scope.
 
-Lemma wf_nonneg B n0 fs : wf_sched B n0 fs = true -> Forall (fun r => 0 <= r_n r) (all_reqs fs).
-Proof.
-  intros H. destruct (wf_parts B n0 fs H) as (_ & Hn0 & Hn & _).
-  apply Forall_impl with (2 := Hn). intros r Hr. lia.
-Qed.
+Lemma wf_nonneg B fs : wf_sched B fs = true -> Forall (fun r => 0 <= r_n r) (all_reqs fs).
+Proof. intros H. now destruct (wf_parts B fs H) as (_ & Hn & _). Qed.
 
-Lemma run_is_sdeliv B k n0 fs : wf_sched B n0 fs = true ->
+Lemma run_is_sdeliv B k fs : wf_sched B fs = true ->
   delivered (run B k fs) = sdeliv B k sinit fs.
 Proof.
-  intros H. rewrite (run_refines_spec B k fs (wf_nonneg B n0 fs H)). reflexivity.
+  intros H. rewrite (run_refines_spec B k fs (wf_nonneg B fs H)). reflexivity.
 Qed.
 
 Lemma in_all_reqs_arrives fs r : In r (all_reqs fs) -> exists a, arrives fs a r.
@@ -25,81 +22,101 @@ Proof.
 Qed.
 
 (* ---------------------------------------------------------------- delivered exactly once *)
-Theorem delivered_once B k n0 fs a r :
-  wf_sched B n0 fs = true -> arrives fs a r ->
+Theorem delivered_once B k fs a r :
+  wf_sched B fs = true -> arrives fs a r ->
   (forall j, removed_at fs j (r_key r) -> (a < j)%nat /\ r_lo r + r_n r <= seen fs j) ->
   r_lo r + r_n r <= zlen (stream_of fs) ->
   count_key (r_key r) (delivered (run B k fs)) = 1 /\
   In (s_item (stream_of fs) r) (delivered (run B k fs)) /\
   (forall it, In it (delivered (run B k fs)) -> i_key it = r_key r -> it = s_item (stream_of fs) r).
 Proof.
-  intros Hwf Harr Hrem Htot. rewrite (run_is_sdeliv B k n0 fs Hwf).
-  pose proof (wf_GW B n0 fs Hwf) as HG.
-  destruct (wf_parts B n0 fs Hwf) as (_ & _ & _ & Hnd & _).
+  intros Hwf Harr Hrem Htot. rewrite (run_is_sdeliv B k fs Hwf).
+  pose proof (wf_GW B fs Hwf) as HG.
+  destruct (wf_parts B fs Hwf) as (_ & _ & Hnd & _).
   pose proof (arrives_in fs a r Harr) as Hin.
-  destruct (count_fate B k n0 fs sinit HG r) as [_ Hf]. destruct (Hf Hin) as [Hc Hi]. cbn [s_T sinit] in *.
+  destruct (count_fate B k fs sinit HG r) as [_ Hf]. destruct (Hf Hin) as [Hc Hi]. cbn [s_T sinit] in *.
   assert (Hfate : fate_f 0 fs r = true) by (apply (fate_f_true r fs 0 a); auto).
   rewrite Hfate in *. cbn [s_stream sinit app] in Hi.
   split; [exact Hc|]. split; [now apply Hi|].
-  intros it Hit Hk. destruct (sdeliv_sound B k n0 fs sinit HG it Hit) as (r' & Hr' & ->).
+  intros it Hit Hk. destruct (sdeliv_sound B k fs sinit HG it Hit) as (r' & Hr' & ->).
   cbn [s_wait s_stream sinit app] in *. cbn in Hk. f_equal.
   assert (H2 : In r' (filter (fun x => r_key x =? r_key r) (all_reqs fs))).
   { apply filter_In. split; [assumption|]. now apply Z.eqb_eq. }
   rewrite (filter_key_unique _ r Hnd Hin) in H2. destruct H2 as [H2|[]]. now subst.
 Qed.
 
-Theorem exact_once B k n0 fs a r :
-  wf_sched B n0 fs = true -> arrives fs a r ->
+Theorem exact_once B k fs a r :
+  wf_sched B fs = true -> arrives fs a r ->
   (forall j, ~ removed_at fs j (r_key r)) ->
   r_lo r + r_n r <= zlen (stream_of fs) ->
   count_key (r_key r) (delivered (run B k fs)) = 1 /\
   In (s_item (stream_of fs) r) (delivered (run B k fs)) /\
   (forall it, In it (delivered (run B k fs)) -> i_key it = r_key r -> it = s_item (stream_of fs) r).
 Proof.
-  intros Hwf Harr Hrem Htot. apply (delivered_once B k n0 fs a r); auto.
+  intros Hwf Harr Hrem Htot. apply (delivered_once B k fs a r); auto.
   intros j Hj. exfalso. exact (Hrem j Hj).
 Qed.
 
 (* ---------------------------------------------------------------- removed: never delivered *)
-Theorem removed_never B k n0 fs a j r :
-  wf_sched B n0 fs = true -> arrives fs a r -> removed_at fs j (r_key r) ->
+Theorem removed_never B k fs a j r :
+  wf_sched B fs = true -> arrives fs a r -> removed_at fs j (r_key r) ->
   ((j <= a)%nat \/ seen fs j < r_lo r + r_n r) ->
   count_key (r_key r) (delivered (run B k fs)) = 0.
 Proof.
-  intros Hwf Harr Hrem Hj. rewrite (run_is_sdeliv B k n0 fs Hwf).
-  pose proof (wf_GW B n0 fs Hwf) as HG.
-  destruct (wf_parts B n0 fs Hwf) as (_ & _ & _ & Hnd & Hok).
+  intros Hwf Harr Hrem Hj. rewrite (run_is_sdeliv B k fs Hwf).
+  pose proof (wf_GW B fs Hwf) as HG.
+  destruct (wf_parts B fs Hwf) as (_ & _ & Hnd & Hok).
   pose proof (arrives_in fs a r Harr) as Hin.
-  destruct (count_fate B k n0 fs sinit HG r) as [_ Hf]. destruct (Hf Hin) as [Hc _]. cbn [s_T sinit] in *.
+  destruct (count_fate B k fs sinit HG r) as [_ Hf]. destruct (Hf Hin) as [Hc _]. cbn [s_T sinit] in *.
   rewrite Hc, (fate_f_false r fs 0 a j); auto.
 Qed.
 
 (* ---------------------------------------------------------------- whatever is delivered is right *)
-Theorem delivered_sound B k n0 fs : wf_sched B n0 fs = true ->
+Theorem delivered_sound B k fs : wf_sched B fs = true ->
   forall it, In it (delivered (run B k fs)) ->
   exists a r, arrives fs a r /\ it = s_item (stream_of fs) r.
 Proof.
-  intros Hwf it Hit. rewrite (run_is_sdeliv B k n0 fs Hwf) in Hit.
-  destruct (sdeliv_sound B k n0 fs sinit (wf_GW B n0 fs Hwf) it Hit) as (r & Hr & ->).
+  intros Hwf it Hit. rewrite (run_is_sdeliv B k fs Hwf) in Hit.
+  destruct (sdeliv_sound B k fs sinit (wf_GW B fs Hwf) it Hit) as (r & Hr & ->).
   cbn [s_wait s_stream sinit app] in *. destruct (in_all_reqs_arrives fs r Hr) as (a & Ha).
   exists a, r. split; [assumption|reflexivity].
 Qed.
 
-Theorem no_error B k n0 fs : wf_sched B n0 fs = true ->
+Theorem no_error B k fs : wf_sched B fs = true ->
   Forall (fun o => is_err o = false) (run B k fs) /\ length (run B k fs) = length fs.
 Proof.
-  intros Hwf. rewrite (run_refines_spec B k fs (wf_nonneg B n0 fs Hwf)). unfold spec_run.
-  destruct (spec_no_error B k n0 fs sinit (wf_GW B n0 fs Hwf)) as [H1 H2].
+  intros Hwf. rewrite (run_refines_spec B k fs (wf_nonneg B fs Hwf)). unfold spec_run.
+  destruct (spec_no_error B k fs sinit (wf_GW B fs Hwf)) as [H1 H2].
   split; [assumption|]. now rewrite map_length.
 Qed.
 
+(* sufficient conditions in the user's terms: one epoch length n0 >= 0 (epoch_size given) and every
+   request's first sample not older than B samples before the chunk being sent when it becomes visible *)
 Theorem lookback_ok B n0 fs :
   (0 <=? B) && (0 <=? n0) && forallb (fun r => r_n r =? n0) (all_reqs fs) && nodupz (req_keys fs) &&
-  within_lookback B 0 fs && rems_ok fs = true -> wf_sched B n0 fs = true.
+  within_lookback B 0 fs && rems_ok fs = true -> wf_sched B fs = true.
 Proof.
   intros H. unfold wf_sched. repeat (apply andb_true_iff in H; destruct H as [H ?]).
+  assert (Hn : Forall (fun r => r_n r = n0) (all_reqs fs)).
+  { apply Forall_forall. intros r Hr. rewrite forallb_forall in H3. specialize (H3 r Hr). lia. }
   repeat (apply andb_true_iff; split); auto.
-  apply lookback_sufficient; [lia|assumption].
+  - apply forallb_forall. intros r Hr. rewrite Forall_forall in Hn. rewrite (Hn r Hr). lia.
+  - apply (lengths_ok_same n0). exact Hn.
+  - apply lookback_sufficient; [lia|assumption].
+Qed.
+
+(* the statement without the equal-length precondition is false: witness *)
+Theorem unequal_lengths_refuted : exists B k fs a r,
+  (0 <=? B) && forallb (fun r => 0 <=? r_n r) (all_reqs fs) && nodupz (req_keys fs) && visible B fs &&
+  rems_ok fs = true /\
+  arrives fs a r /\ (forall j, ~ removed_at fs j (r_key r)) /\ r_lo r + r_n r <= zlen (stream_of fs) /\
+  count_key (r_key r) (delivered (run B k fs)) = 0 /\ run B k fs = [FErr EStack].
+Proof.
+  exists 0, (mkkind false false), [mkfeed [1;2;3;4] [] [mkreq 0 0 2 7; mkreq 1 1 3 8] true], 0%nat, (mkreq 0 0 2 7).
+  split; [vm_compute; reflexivity|]. split; [eexists; split; [reflexivity|cbn; auto]|].
+  split.
+  { intros j (f & E & H). destruct j as [|[|j]]; cbn in E; inversion E; subst; cbn in H; contradiction. }
+  split; [vm_compute; discriminate|]. split; vm_compute; reflexivity.
 Qed.
 
 (* ---------------------------------------------------------------- the all-done callback *)
@@ -178,13 +195,13 @@ Proof.
 Qed.
 
 (* "pending is empty" in terms of the requests: nothing waits in the specification either *)
-Theorem done_means_all_delivered B k n0 fs j st b :
-  wf_sched B n0 fs = true ->
+Theorem done_means_all_delivered B k fs j st b :
+  wf_sched B fs = true ->
   nth_error (trace B k xinit fs) j = Some (st, FOut b true) ->
   exists s, nth_error (spec_trace B k sinit fs) j = Some (s, FOut b true) /\ s_wait s = [].
 Proof.
   intros Hwf Ht.
-  pose proof (trace_pending B k fs xinit sinit R_init (wf_nonneg B n0 fs Hwf)) as HF.
+  pose proof (trace_pending B k fs xinit sinit R_init (wf_nonneg B fs Hwf)) as HF.
   destruct (done_only_when B k fs j st b Ht) as (Hp & _ & _).
   revert j Ht. induction HF as [|[st1 o1] [s1 o2] l1 l2 [Ho Hw] HF IH]; intros j Ht; [destruct j; discriminate|].
   destruct j as [|j]; cbn in *.
